@@ -30,6 +30,7 @@ from checks import chanlib as cl
 LEVEL = "proof"
 PID = "C10"
 FS = {0: 1.0, 1: 1.0, 2: 65536.0 * 32768, 3: 32768.0}
+BIG_RATIOS = [(1, 32), (1, 33), (1, 40), (1, 64), (1, 128), (750, 48000), (1200, 48000), (1, 100), (3, 128), (64, 1), (40, 1), (100, 1), (128, 3)]
 
 
 def vr_mult(kv):
@@ -41,8 +42,18 @@ def gen_cfg(rng, vr_ok=True, lsr_ok=True):
     if lsr_ok and not vr and rng.chance(.12):
         kv["recipe"] = rng.choice([8, 9, 10, 11, 12, 13])   # LSR recipes (11..13 map to QQ / VHQ): no RESET_ON_CLEAR (88f0e06)
         kv["qflags"] = 0
+    if not vr and rng.chance(.4):
+        # the whole configuration space of the constant-rate planner (every recipe, steep filters, roll-offs, non-linear phase, precision,
+        # runtime knobs; large up- and down-sampling factors favoured): every filter the planner designs, pads and caches is reached
+        from checks import crcommon
+        cfg, _ = crcommon.gen_config(rng, allow_nonlinear=True, max_up=130.0, max_down=200.0)
+        if rng.chance(.4):
+            cfg["ir"], cfg["or"] = map(str, rng.choice(BIG_RATIOS))
+            if rng.chance(.6):
+                cfg["phase"] = rng.choice([0, 10, 25, 45, 55, 75, 100])
+        kv = dict(cfg)
     kv.update({"ch": rng.choice([1, 1, 2, 3]), "itype": rng.below(8), "otype": rng.below(8), "ioflags": 8,
-               "amp": rng.choice([.4, .9, 1.3]), "sigseed": rng.below(1000), "scale": rng.choice([1, 1, 1, .5, 3]),
+               "amp": rng.choice([.4, .9, 1.3, 3.0]), "sigseed": rng.below(1000), "scale": rng.choice([1, 1, 1, .5, 3]),
                "threads": 1})
     return kv, vr
 
@@ -53,8 +64,8 @@ def other_traffic(rng, name, big=False):
     if big and not vr:
         kv.update({"recipe": 6, "ir": rng.choice([44100, 96000, 7]), "or": rng.choice([48000, 44100, 5])})   # larger DFTs
     lines = ["new %s %s" % (name, cl.kvline(kv))]
-    N = rng.below(6000)
     ratio = float(kv["ir"]) / float(kv["or"])
+    N = min(rng.below(6000), int(40000 * ratio) + 1)
     for op in cl.gen_schedule(rng, N, vr, ratio)[: 2 + rng.below(6)]:
         lines.append("%s %s" % (name, op))
     if rng.chance(.6):
@@ -81,7 +92,7 @@ def partial_traffic(rng, name, kv, vr, allow_fn=True, fn_registered=False):
     if k == 0:
         lines += ["%s limit 100000" % name] + ["%s feed %d %d %d" % (name, rng.choice([1, 100, 1000]), rng.choice([10, 500]), rng.below(2)) for _ in range(1 + rng.below(5))]
     elif k == 1:
-        lines += ["%s %s" % (name, op) for op in cl.gen_schedule(rng, rng.below(4000), vr, ratio)]          # complete stream incl. flush
+        lines += ["%s %s" % (name, op) for op in cl.gen_schedule(rng, min(rng.below(4000), int(40000 * ratio) + 1), vr, ratio)]          # complete stream incl. flush
     elif k == 2:
         lines += ["%s limit 5000" % name, "%s setfn 64" % name, "%s pull 300 d100 d100 f" % name, "%s pull 10" % name]   # failure -> sticky error
     else:
@@ -100,6 +111,7 @@ def gen_case(rng, ctx):
     kv, vr = gen_cfg(rng, lsr_ok=True)
     N = rng.choice([0, 1, 500]) if rng.chance(.2) else rng.below(8000 if ctx.quick else 30000)
     ratio = float(kv["ir"]) / float(kv["or"])
+    N = min(N, int(60000 * ratio) + 1)
     job = cl.gen_schedule(rng, N, vr, ratio)
     pull = any(o.startswith("setfn") for o in job)
     newx = "new X " + cl.kvline(kv)
@@ -150,8 +162,12 @@ def vr_first_is_x(vr):
     return vr
 
 
-def run_history(exe, lines, simd=None):
-    env = None if simd is None else dict(os.environ, SOXR_USE_SIMD=str(simd))
+def run_history(exe, lines, simd=None, perturb=None):
+    """perturb: glibc's MALLOC_PERTURB_ byte - fresh malloc'ed (not calloc'ed) memory and freed memory are filled with it, so that a
+    result that depends on heap contents the library never wrote differs from run to run instead of reading zeros by luck"""
+    env = None if simd is None and not perturb else dict(os.environ)
+    if simd is not None: env["SOXR_USE_SIMD"] = str(simd)
+    if perturb: env["MALLOC_PERTURB_"] = str(perturb)
     rc, out, err = cl.run_text(exe, lines, timeout=900, env=env)
     return rc, out, err
 
@@ -165,23 +181,37 @@ def falsifier(ctx, ncases):
     exe = cl.exe_history()
     active = {f["id"] for f in common.known_active(PID)}
     nviol = 0
+    cases = []
     for _ in range(ncases):
         kv, vr, hs = gen_case(ctx.rng, ctx)
         # portable engines (SOXR_USE_SIMD=0) use fft4g and its process-wide table cache; the SIMD ones use pffft set-ups
         simd = 0 if ctx.rng.chance(.45) else None
+        # heap contents the library did not write must not matter either: the fresh process runs on the untouched (zero) heap, every
+        # other history with malloc'ed and freed memory filled with a byte of its own
+        perturbs = [None] + [ctx.rng.choice([None, 85, 170, 255, 1]) for _ in hs[1:]]
+        cases.append((kv, vr, hs, simd, perturbs))
+
+    def work(case):
+        kv, vr, hs, simd, perturbs = case
+        return [run_history(exe, lines, simd, pb) for (label, lines, first_vr), pb in zip(hs, perturbs)]
+    from concurrent.futures import ThreadPoolExecutor
+    with ThreadPoolExecutor(common.NCPU) as ex:
+        results = list(ex.map(work, cases))
+    for (kv, vr, hs, simd, perturbs), runs in zip(cases, results):
         ctx.hist("case_simd", "portable(fft4g cache)" if simd == 0 else "default")
         ref = None
         ctx.count("cases")
         ctx.hist("case_engine", "vr" if vr else "cr recipe %s" % kv["recipe"])
-        for label, lines, first_vr in hs:
-            rc, out, err = run_history(exe, lines, simd)
+        for (label, lines, first_vr), pb, (rc, out, err) in zip(hs, perturbs, runs):
             ctx.count("histories")
             ctx.hist("history_kind", label)
+            ctx.hist("history_heap", "perturbed" if pb else "zero")
             h = hline(out)
+            rep_env = {"SOXR_USE_SIMD": simd, "MALLOC_PERTURB_": pb}
             if rc != 0 or h is None:
                 nviol += 1
                 ctx.violation("history harness failed (rc=%s) in history `%s`: %s" % (rc, label, (out[-2:] + [err[-300:]])),
-                              {"harness": "chan/history.c", "stdin": lines})
+                              dict(rep_env, harness="chan/history.c", stdin=lines))
                 continue
             sc = [l for l in out if l.startswith("SC ")]
             for l in sc:
@@ -189,10 +219,10 @@ def falsifier(ctx, ncases):
                 if not l.endswith("equal"):
                     nviol += 1
                     ctx.violation("after soxr_clear the struct differs from a newly created twin: " + l,
-                                  {"harness": "chan/history.c", "stdin": lines})
+                                  dict(rep_env, harness="chan/history.c", stdin=lines))
             if any(l.startswith("E ") and "clear" in l for l in out):
                 nviol += 1
-                ctx.violation("soxr_clear returned an error: " + [l for l in out if l.startswith("E ")][0], {"harness": "chan/history.c", "stdin": lines})
+                ctx.violation("soxr_clear returned an error: " + [l for l in out if l.startswith("E ")][0], dict(rep_env, harness="chan/history.c", stdin=lines))
             if ref is None:
                 ref = (label, lines, h)
                 continue
@@ -204,8 +234,10 @@ def falsifier(ctx, ncases):
                     ctx.count("F6_hits")
                 else:
                     nviol += 1
-                    ctx.violation("the same job gives different results in history `%s` and in a fresh process:\n %s\n %s" % (label, h, ref[2]),
-                                  {"harness": "chan/history.c", "stdin": lines, "reference_stdin": ref[1], "SOXR_USE_SIMD": simd})
+                    if nviol <= 12:
+                        ctx.violation("the same job gives different results in history `%s`%s and in a fresh process:\n %s\n %s"
+                                      % (label, " (heap filled with byte %s)" % pb if pb else "", h, ref[2]),
+                                      dict(rep_env, harness="chan/history.c", stdin=lines, reference_stdin=ref[1]))
             else:
                 ctx.count("identical_histories")
         ctx.sample({"job": cl.kvline(kv), "histories": [h[0] for h in hs]})
@@ -470,7 +502,7 @@ def run(ctx):
         import json
         r = json.load(open(ctx.replay))["replay"]
         if "stdin" in r:
-            rc, out, err = run_history(cl.exe_history(), r["stdin"], r.get("SOXR_USE_SIMD"))
+            rc, out, err = run_history(cl.exe_history(), r["stdin"], r.get("SOXR_USE_SIMD"), r.get("MALLOC_PERTURB_"))
             print("\n".join(out[-30:]))
             if "reference_stdin" in r:
                 rc2, out2, _ = run_history(cl.exe_history(), r["reference_stdin"], r.get("SOXR_USE_SIMD"))
@@ -486,7 +518,7 @@ def run(ctx):
         mismatch = fields_correspondence(ctx, 250 if ctx.quick else 5000)
     else:
         broken.append("driver soxr_chan was not built")
-    nviol = falsifier(ctx, 80 if ctx.quick else 2500)
+    nviol = falsifier(ctx, 240 if ctx.quick else 6000)
     pinned_mixed_pairs(ctx)
     first_instance_matrix(ctx)
     torn_down_histories(ctx)
